@@ -11,8 +11,9 @@ import yaml
 from common import *
 
 H = "Misc.Init Harness.C18"
-STATES = ["Absent", "IsFile", "IsDir", "IsDangling", "IsLinkToFile", "NoParent", "ParentIsFile"]
-EXISTING = {"IsFile", "IsDir", "IsDangling", "IsLinkToFile"}
+STATES = ["Absent", "IsFile", "IsDir", "IsDangling", "IsDanglingIntoDir", "IsLinkToFile", "NoParent", "ParentIsFile"]
+EXISTING = {"IsFile", "IsDir", "IsDangling", "IsDanglingIntoDir", "IsLinkToFile"}
+LINK_KINDS = ["inside-rel", "inside-abs", "outside-rel", "outside-abs"]   # dangling link into an EXISTING directory
 DOC_KEYS = ["all", "dir", "filename", "force-file-write", "formatter", "log-level", "structname", "pkgname", "recursive",
             "require-template-schema-exists", "template", "template-schema"]
 
@@ -74,9 +75,14 @@ def snapshot(root):
 OLD_CONTENTS = [b"", b"old", b"all: true\npackages:\n  x:\n", b"\x00\xff binary \n", b"not: [yaml", b"# only a comment\n"]
 
 
-def prepare(w, state, target_rel, rng):
-    """target_rel: the target relative to w.  Returns the content put at the target (if a file)."""
+def prepare(w, state, target_rel, rng, linkkind=None):
+    """w = working directory (<sandbox>/wd), target_rel: the target relative to w.
+    Returns the content put at the target (if a file)."""
     w.mkdir(parents=True)
+    (w.parent / "outside").mkdir()
+    (w.parent / "outside" / "keep3.txt").write_bytes(b"outside bystander")
+    (w / "shared").mkdir()
+    (w / "shared" / "keep4.txt").write_bytes(b"shared bystander")
     (w / "keep.txt").write_bytes(b"bystander")
     (w / "other").mkdir()
     (w / "other" / "keep2.yml").write_bytes(b"all: true\n")
@@ -96,6 +102,10 @@ def prepare(w, state, target_rel, rng):
         t.mkdir()
     elif state == "IsDangling":
         os.symlink("/nonexistent/c18/x", t)
+    elif state == "IsDanglingIntoDir":
+        # the link's destination does not exist, but its directory does: a non-exclusive create would go through the link
+        dest = (w / "shared" if linkkind.startswith("inside") else w.parent / "outside") / "made-by-link.yml"
+        os.symlink(str(dest) if linkkind.endswith("abs") else os.path.relpath(dest, start=t.parent), t)
     elif state == "IsLinkToFile":
         (w / "other.file").write_bytes(b"linked content")
         os.symlink(str(w / "other.file"), t)
@@ -193,15 +203,18 @@ def loader_defaults(ctx):
 
 
 def run_case(ctx, c):
-    w = ctx.scratch / "w" / c["id"]
+    sandbox = ctx.scratch / "w" / c["id"]
+    w = sandbox / "wd"                                  # working directory; <sandbox>/outside is a sibling
     rng = __import__("random").Random(c["seed"])
     kind, flagf, rel = TARGETS[c["target"]]
-    c["old"] = prepare(w, c["state"], rel, rng)
+    c.setdefault("linkkind", rng.choice(LINK_KINDS))
+    c["old"] = prepare(w, c["state"], rel, rng, c["linkkind"])
     flagval = flagf(w)
-    before = snapshot(w)
+    snap = lambda: {(k[3:] if k.startswith("wd/") else "../" + k): v for k, v in snapshot(sandbox).items() if k != "wd"}
+    before = snap()
     cmd = [ctx.bins["mockery"], "init"] + (["--config", flagval] if flagval is not None else []) + ["--", os.fsdecode(c["pkg"])]
     p = run(cmd, cwd=w, env=clean_env(), timeout=60)
-    after = snapshot(w)
+    after = snap()
     o = {"exit": 0 if p.returncode == 0 else 1, "rc": p.returncode, "flag": flagval or "", "log": (p.stdout + p.stderr).decode(errors="replace")[-600:]}
     o["target_changed"] = before.get(rel) != after.get(rel)
     o["others_changed"] = sorted(k for k in set(before) | set(after) if k != rel and before.get(k) != after.get(k))
@@ -331,11 +344,53 @@ def module_case(ctx, k, rng):
     return desc, []
 
 
+# ---------------------------------------------------------------- concurrent init runs on one fresh target
+def probe_round(ctx, r, n, refs):
+    """n concurrent `mockery init` runs (different package arguments) on one fresh target.
+    -> None if exactly one wins and the file is that run's complete document, else a description"""
+    import threading
+    d = ctx.scratch / "conc" / ("r%d" % r)
+    d.mkdir(parents=True)
+    flag = [] if r % 2 == 0 else ["--config", "conf.yml"]
+    target = d / (".mockery.yml" if r % 2 == 0 else "conf.yml")
+    pkgs = ["example.com/conc/p%d" % k for k in range(n)]
+    rcs, bar = [None] * n, threading.Barrier(n)
+
+    def one(k):
+        bar.wait()
+        rcs[k] = run([ctx.bins["mockery"], "init"] + flag + [pkgs[k]], cwd=d, env=clean_env(), timeout=60).returncode
+    ths = [threading.Thread(target=one, args=(k,)) for k in range(n)]
+    for t in ths: t.start()
+    for t in ths: t.join()
+    winners = [k for k in range(n) if rcs[k] == 0]
+    data = target.read_bytes() if target.is_file() else None
+    others = sorted(x.name for x in d.iterdir() if x != target)
+    if len(winners) == 1 and data == refs[pkgs[winners[0]]] and not others:
+        return None
+    whose = [p for p in pkgs if data is not None and refs[p] == data]
+    return {"round": r, "exit_codes": rcs, "winners": len(winners), "target": target.name,
+            "file": "missing" if data is None else ("complete document of %s" % whose[0] if whose else "not a complete document of any run: %r" % data[-200:]),
+            "other_files": others}
+
+
+def concurrency_probe(ctx, rounds, n=8, base=0):
+    refd = ctx.scratch / "conc" / ("ref%d" % base)
+    refs = {}
+    for k in range(n):
+        dd = refd / str(k)
+        dd.mkdir(parents=True)
+        p = "example.com/conc/p%d" % k
+        run([ctx.bins["mockery"], "init", p], cwd=dd, env=clean_env(), timeout=60)
+        refs[p] = (dd / ".mockery.yml").read_bytes() if (dd / ".mockery.yml").exists() else b"<no reference>"
+    return [x for x in (probe_round(ctx, base + r, n, refs) for r in range(rounds)) if x]
+
+
 # ---------------------------------------------------------------- streams
 CORPUS = [  # (state, target index, package path)
     ("Absent", 0, b"github.com/org/repo"), ("IsFile", 0, b"github.com/org/repo"), ("Absent", 1, b'a: b #c "q" {x}'),
     ("Absent", 3, b"- leading dash"), ("IsDangling", 1, b"x"), ("IsDir", 4, b"x"), ("IsLinkToFile", 2, b"x"),
     ("NoParent", 3, b"x"), ("NoParent", 5, b"x"), ("ParentIsFile", 3, b"x"), ("Absent", 5, b"null"), ("Absent", 6, b"true"),
+    ("IsDanglingIntoDir", 0, b"x"), ("IsDanglingIntoDir", 3, b"x"), ("IsDanglingIntoDir", 4, b"x"), ("IsDanglingIntoDir", 1, b"x"),
     ("Absent", 1, b""), ("Absent", 1, b"<<x"), ("Absent", 1, b"\xff\xfe"), ("Absent", 1, b"a\nb"), ("Absent", 2, "日本語/✓ ".encode()),
 ]
 
@@ -343,7 +398,7 @@ CORPUS = [  # (state, target index, package path)
 def gen_cases(rng, n):
     cases = []
     for i in range(n):
-        st = rng.choice(["Absent"] * 6 + STATES)
+        st = rng.choice(["Absent"] * 6 + STATES + ["IsDanglingIntoDir"])
         pkg = gen_pkg(rng)
         while guarded(pkg):
             pkg = gen_pkg(rng)
@@ -352,7 +407,7 @@ def gen_cases(rng, n):
 
 
 def describe(c, o=None):
-    d = {"state": c["state"], "target": TARGETS[c["target"]][0], "package_path": c["pkg"].decode(errors="backslashreplace"),
+    d = {"state": c["state"] + ("(%s)" % c.get("linkkind") if c["state"] == "IsDanglingIntoDir" else ""), "target": TARGETS[c["target"]][0], "package_path": c["pkg"].decode(errors="backslashreplace"),
          "package_path_hex": hx(c["pkg"]), "stream": c.get("stream", "")}
     if o is not None:
         d.update({"config_flag": o["flag"], "exit": o["rc"], "target_changed": o["target_changed"], "others_changed": o["others_changed"],
@@ -362,10 +417,10 @@ def describe(c, o=None):
 
 
 def to_json(c):
-    return {"state": c["state"], "target": c["target"], "pkg": hx(c["pkg"]), "stream": c.get("stream", "main")}
+    return {"state": c["state"], "target": c["target"], "pkg": hx(c["pkg"]), "stream": c.get("stream", "main"), "linkkind": c.get("linkkind")}
 
 
-def check(ctx, only=None):
+def check(ctx, only=None, probe_only=False):
     gate = proof_gate(ctx)
     if not ctx.build_tree():
         ctx.write_evidence(gate, 0, 0, "build failed", [])
@@ -377,6 +432,10 @@ def check(ctx, only=None):
         cases = only
     else:
         cases = [{"state": s, "target": t, "pkg": p, "stream": "corpus"} for s, t, p in CORPUS]
+        for k, c in enumerate(c for c in cases if c["state"] == "IsDanglingIntoDir"):
+            c["linkkind"] = LINK_KINDS[k % 4]
+        for lk in LINK_KINDS:                          # every link kind on the default target and on an absolute one
+            cases += [{"state": "IsDanglingIntoDir", "target": t, "pkg": b"github.com/org/repo", "stream": "matrix", "linkkind": lk} for t in (0, 5)]
         # every state x every target once, then the random stream
         for s in STATES:
             for t in range(len(TARGETS)):
@@ -414,6 +473,18 @@ def check(ctx, only=None):
         seeds = [rng.randrange(1 << 30) for _ in range(nmod)]
         mod_results = pmap(lambda ks: module_case(ctx, ks[0], __import__("random").Random(ks[1])), list(enumerate(seeds)), workers=4)
     mod_fail = [(d, e) for d, e in mod_results if e]
+    # concurrent inits: exactly one may win (two-stage: a bad round counts only if a second batch shows one too)
+    probe = {"rounds": 0, "suspicious_first_batch": [], "confirmed": []}
+    if only is None or probe_only:
+        nr = 100 if ctx.thorough() else 20
+        first = concurrency_probe(ctx, nr)
+        probe["rounds"] = nr
+        if first:
+            second = concurrency_probe(ctx, 2 * nr, base=1000)
+            probe["rounds"] += 2 * nr
+            probe["suspicious_first_batch"] = first[:3]
+            if second or any(x["winners"] == 0 for x in first):
+                probe["confirmed"] = (first + second)[:4]
     # model
     bad, errs = coq_mismatches(ctx, H, [case_term(c, o) for c, o in zip(cases, obs)], shard=80)
     # verdicts
@@ -423,7 +494,13 @@ def check(ctx, only=None):
     for j, (d, e) in enumerate(mod_fail[:2]):
         rp = ctx.write_replay("module-%d" % j, {"what": e, "module_case": d, "note": "re-run: the module is rebuilt from this description by a full run with the same seed"})
         ctx.violation(rp)
-    failing = bool(oracle_fail or mod_fail)
+    if probe["confirmed"]:
+        rp = ctx.write_replay("concurrent-init", {
+            "what": ["exclusive: %d `mockery init` runs were started at the same time on one fresh target; exactly one may succeed and the file must be its complete document (reproduced in a second batch)" % 8]
+                    + ["round %(round)s: %(winners)s runs exited 0 (exit codes %(exit_codes)s), file: %(file)s, other files: %(other_files)s" % x for x in probe["confirmed"]],
+            "probe": {"n": 8, "rounds": probe["rounds"]}})
+        ctx.violation(rp)
+    failing = bool(oracle_fail or mod_fail or probe["confirmed"])
     if not gate["ok"] and not failing:
         ctx.violation(gate["replay"], nofail=True)
     if (bad or errs) and not failing:
@@ -456,10 +533,12 @@ def check(ctx, only=None):
         for k, v in (("state", c["state"]), ("target", TARGETS[c["target"]][0]), ("package_path_class", cls(c["pkg"])), ("stream", c.get("stream", "main"))):
             hist[k][v] = hist[k].get(v, 0) + 1
     distinct = len({(c["state"], c["target"], c["pkg"]) for c in cases if cls(c["pkg"]) != "plain" or c["state"] != "Absent"})
-    ctx.write_evidence(gate, len(cases) + len(mod_results), distinct,
-                       "one evaluation = one `mockery init` run (with showconfig on the result) or one init + plain `mockery` run in a scratch module; non-trivial = the target exists / has no directory, or the package path is not a plain identifier path; distinct by (state, target kind, package path bytes)",
+    ctx.write_evidence(gate, len(cases) + len(mod_results) + probe["rounds"], distinct,
+                       "one evaluation = one `mockery init` run (with showconfig on the result), one init + plain `mockery` run in a scratch module, or one round of 8 concurrent init runs on one target; non-trivial = the target exists / has no directory, or the package path is not a plain identifier path; distinct by (state, target kind, package path bytes)",
                        [describe(c, o) for c, o in list(zip(cases, obs))[:60:9]],
-                       extra={"distribution": hist, "init_runs": len(cases), "module_runs": len(mod_results), "module_failures": len(mod_fail),
+                       extra={"distribution": hist, "init_runs": len(cases), "concurrency_probe": {"concurrent_runs_per_round": 8, "rounds": probe["rounds"],
+                                                                                     "unconfirmed_suspicious_rounds": len(probe["suspicious_first_batch"]) if not probe["confirmed"] else 0,
+                                                                                     "confirmed_bad_rounds": len(probe["confirmed"])}, "module_runs": len(mod_results), "module_failures": len(mod_fail),
                               "model_mismatches": len(bad), "oracle_failures": len(oracle_fail),
                               "module_samples": [d for d, _ in mod_results[:3]]},
                        assumptions=["yaml.v3 (encoder) and koanf's YAML parser are parameters of the model with a round-trip hypothesis; the correspondence compares at the level of key/value trees (PyYAML compose without merge processing) and through the real loader (`mockery showconfig`)",
@@ -469,10 +548,14 @@ def check(ctx, only=None):
 
 def replay(ctx, path):
     d = json.loads(open(path).read())
+    if d.get("probe"):
+        check(ctx, only=[], probe_only=True)
+        return
     cs = [d["case"]] if "case" in d else [e["case"] for e in d.get("examples", [])]
     def fi(c):
         pkg = bytes.fromhex(c["pkg"])
         if c.get("stream") == "witness":
             return {"finding": "C18-merge-key-package-path" if is_merge_key(pkg) else "C18-multiline-package-path"}
         return {}
-    check(ctx, only=[{"state": c["state"], "target": c["target"], "pkg": bytes.fromhex(c["pkg"]), "stream": c.get("stream", "main"), **fi(c)} for c in cs])
+    check(ctx, only=[{"state": c["state"], "target": c["target"], "pkg": bytes.fromhex(c["pkg"]), "stream": c.get("stream", "main"),
+                      **({"linkkind": c["linkkind"]} if c.get("linkkind") else {}), **fi(c)} for c in cs])
